@@ -1,5 +1,5 @@
 """C10 — staged and ramp profiles are the configured piecewise-linear shapes."""
-from ..core import ints
+from ..core import ints, hx
 ID = "C10"
 PROPS = ["F1Verif.Props.C10", "F1Verif.Props.FactsC10"]
 RULE = ("engine A on CalculateStagedRate / CalculateRampRate (distribution none, jitter 0) evaluated on synthetic "
@@ -8,7 +8,8 @@ RULE = ("engine A on CalculateStagedRate / CalculateRampRate (distribution none,
         "stage boundary -1/0/+1 ns, ramps up and down with long durations and large rate differences; outputs compared "
         "with the as-written Float model, exact model alongside (float gaps), Spec (within 1 of the exact interpolation, "
         "inside the targets, monotone within a stage, 0 afterwards, duration = sum) evaluated on the implementation's "
-        "outputs. Non-trivial: at least two stages (or a ramp) and at least three queries; distinct = distinct cases.")
+        "outputs; the same through the *builders* (bstaged: --stages strings as typed, with spaces, units and zero-padded "
+        "numbers; bramp: --ramp-duration against --max-duration, including the 0 fallback). Non-trivial: at least two stages (or a ramp) and at least three queries; distinct = distinct cases.")
 ASSUMPTIONS = ["theorems are about exact arithmetic (truncating integer division); binary64 evaluation is modelled bit-exactly "
                "in the driver but not verified; the property's 'within 1' absorbs the difference",
                "non-negative stage durations, query times non-decreasing from the start (as the property states)",
@@ -30,6 +31,13 @@ def corpus():
         "ramp 10 0 1000000000 %d %s" % (10 * S, ints([0, S, 5 * S, 10 * S - 1, 10 * S, 10 * S + 1, 11 * S])),
         "ramp 5 5 1000000000 %d 0" % (10 * S),
         "ramp 1 2 1000000000 500000000 0",
+        # through the builders: the --stages string (zero-padded targets are decimal) and the ramp's own duration flag
+        "bstaged %s %s" % (hx("0s:010, 10s:050, 5s:50, 5s:0"), ints([0, S, 5 * S, 10 * S, 12 * S, 15 * S, 17 * S, 20 * S, 21 * S])),
+        "bstaged %s %s" % (hx("10s:10, 0s:100, 10s:100"), ints([0, 5 * S, 10 * S, 10 * S + 1, 15 * S, 20 * S, 20 * S + 1])),
+        "bramp 0 100 1000000000 %d %d %s" % (10 * S, 4 * S, ints([0, S // 2, 2 * S, 4 * S, 5 * S, 9 * S, 10 * S, 10 * S + 1])),   # the run is shorter than the ramp
+        "bramp 100 0 1000000000 %d %d %s" % (10 * S, 4 * S, ints([0, S, 4 * S, 6 * S, 10 * S, 11 * S])),
+        "bramp 0 100 1000000000 0 %d %s" % (4 * S, ints([0, S, 2 * S, 4 * S, 4 * S + 1])),            # --ramp-duration 0: the run's duration
+        "bramp 0 100 1000000000 %d %d %s" % (2 * S, 10 * S, ints([0, S, 2 * S, 2 * S + 1, 5 * S])),
     ]
 
 
@@ -84,9 +92,45 @@ def gen_ramp(rng):
     return "ramp %d %d %d %d %s" % (s, e, unit, dur, ints(qs))
 
 
+def gen_bstaged(rng):
+    """the --stages string as typed (spaces, zero-padded numbers, units), through the staged builder"""
+    n = rng.choice([1, 2, 3, 4])
+    parts, durs = [], []
+    for i in range(n):
+        d = rng.choice([0, 1, 5, 10, 30])
+        unit = rng.choice(["s", "s", "m", "ms"])
+        if i == 0 and rng.random() < 0.5:
+            d = 0
+        t = rng.choice([0, 1, 8, 10, 50, 100, 777])
+        ts = ("%03d" % t) if rng.random() < 0.35 else str(t)         # zero-padded targets are decimal
+        ds = ("%02d" % d) if rng.random() < 0.2 else str(d)
+        sp = rng.choice(["", " "])
+        parts.append("%s%s%s:%s%s" % (sp, ds, unit, sp, ts))
+        durs.append(d * {"s": S, "m": 60 * S, "ms": S // 1000}[unit])
+    total = sum(durs)
+    pts, cum = {0, total, total + 1}, 0
+    for d in durs:
+        pts |= {cum, cum + d // 2, max(0, cum - 1)}
+        cum += d
+    return "bstaged %s %s" % (hx(",".join(parts)), ints(sorted(pts)))
+
+
+def gen_bramp(rng):
+    unit = rng.choice([S, S // 10])
+    s, e = rng.choice([(0, 100), (100, 0), (5, 50), (1000, 10)])
+    rd = rng.choice([0, 0, unit, 4 * unit, 10 * unit, 37 * unit])
+    md = rng.choice([unit, 2 * unit, 4 * unit, 20 * unit, 100 * unit])
+    dur = md if rd == 0 else rd
+    pts = {0, 1, dur // 2, dur // 3, dur - 1, dur, dur + 1, md, md + 1, 2 * dur}
+    return "bramp %d %d %d %d %d %s" % (s, e, unit, rd, md, ints(sorted(p for p in pts if p >= 0)))
+
+
 def generate(rng, tier):
     n = {"quick": 1500, "thorough": 40000, "search": 20000}[tier]
-    return [gen_staged(rng) if rng.random() < 0.65 else gen_ramp(rng) for _ in range(n)]
+    out = [gen_staged(rng) if rng.random() < 0.65 else gen_ramp(rng) for _ in range(n)]
+    for _ in range(n // 10):
+        out.append(gen_bstaged(rng) if rng.random() < 0.5 else gen_bramp(rng))
+    return out
 
 
 def nontrivial_key(rec):
@@ -95,6 +139,8 @@ def nontrivial_key(rec):
         return rec["case"]
     if a[0] == "ramp" and rec["impl"] != "err" and a[5].count(",") >= 2:
         return rec["case"]
+    if a[0] in ("bstaged", "bramp") and rec["impl"] != "err":
+        return rec["case"]
     return None
 
 
@@ -102,13 +148,13 @@ def distribution(recs):
     d = {"staged": 0, "ramp": 0, "ramp_rejected": 0, "zero_length_stage": 0, "descending": 0, "explicit_start": 0, "float_gap_events": 0}
     for r in recs:
         a = r["case"].split()
-        d[a[0]] += 1
+        d[a[0]] = d.get(a[0], 0) + 1
         if a[0] == "staged":
             st = [tuple(map(int, x.split(":"))) for x in a[1].split(";")] if a[1] != "-" else []
             d["zero_length_stage"] += any(x[0] == 0 for x in st)
             d["descending"] += any(st[i][1] < st[i - 1][1] for i in range(1, len(st)))
             d["explicit_start"] += a[2] != "-"
-        elif r["impl"] == "err":
+        elif a[0] == "ramp" and r["impl"] == "err":
             d["ramp_rejected"] += 1
         d["float_gap_events"] += r["spec"] == "ok:gap"
     return d
